@@ -52,7 +52,14 @@ Inductive eq_mode := EqLen | EqFull.
     [FsReset] repaired: the empty token is persisted when the fullsync starts. *)
 Inductive fs_mode := FsKeep | FsReset.
 
-Record variant := mkVar { vm_eq : eq_mode; vm_fs : fs_mode }.
+(** in-batch duplicate handling of StoreEntitiesWithTransaction (same flag as Model/Store.v):
+    [DupStoredAndLocal]  the pinned tree: skip iff equal to the STORED version and (no in-batch
+                         predecessor or equal to it) - a repeated element is stored twice;
+    [DupLocalElseStored] repaired: the in-batch predecessor decides if there is one, else the
+                         stored version. *)
+Inductive dup_mode := DupStoredAndLocal | DupLocalElseStored.
+
+Record variant := mkVar { vm_eq : eq_mode; vm_fs : fs_mode; vm_dup : dup_mode }.
 
 Open Scope Z_scope.
 Definition vlen (v : Z) : Z := if v =? 0 then 0 else (v - 1) / 3 + 1.
@@ -79,13 +86,23 @@ Section Write.
   (** the equality used by the skip rule *)
   Variable eqf : version -> version -> bool.
 
-  (** [!isnew && !isDifferent && !isDifferentLocally]: the stored latest version (read
-      snapshot taken before the batch) exists and is equal, and the in-batch
-      predecessor (localLatests) is absent or equal.  [w0] = versions already
-      pending in this batch. *)
+  Variable dm : dup_mode.
+
+  (** pinned: [!isnew && !isDifferent && !isDifferentLocally]: the stored latest version (read
+      snapshot taken before the batch) exists and is equal, and the in-batch predecessor
+      (localLatests) is absent or equal.  Repaired: [isDifferent = isDifferentLocally] when an
+      in-batch predecessor exists.  [w0] = versions already pending in this batch. *)
   Definition skip (snap w0 : feed) (e : version) : bool :=
-    match cur snap (v_id e) with Some s => eqf s e | None => false end
-    && match cur w0 (v_id e) with Some l => eqf l e | None => true end.
+    match dm with
+    | DupStoredAndLocal =>
+      match cur snap (v_id e) with Some s => eqf s e | None => false end
+      && match cur w0 (v_id e) with Some l => eqf l e | None => true end
+    | DupLocalElseStored =>
+      match cur w0 (v_id e) with
+      | Some l => eqf l e
+      | None => match cur snap (v_id e) with Some s => eqf s e | None => false end
+      end
+    end.
 
   Fixpoint batch_loop (snap w0 : feed) (es : list version) : feed :=
     match es with
@@ -154,10 +171,10 @@ Definition nonempty {A} (l : list A) : bool := match l with [] => false | _ => t
 (** ** The processEntities callback of IncrementalPipeline.sync
     [T] = persisted token state.  Returns the sink, the persisted token and
     [Some o] if the run ends here with outcome [o], [None] if the loop goes on. *)
-Definition proc_inc {T} (eqf : version -> version -> bool) (sink : feed) (stored : T)
+Definition proc_inc {T} (eqf : version -> version -> bool) (dm : dup_mode) (sink : feed) (stored : T)
     (page : list version) (newtok : T) (idx : nat) (flt : fault) : feed * T * option outcome :=
   if nonempty page && is_sinkfail flt idx then (sink, stored, Some OFailed) else
-  let sink1 := ds_write eqf sink page in                     (* sink.processEntities *)
+  let sink1 := ds_write eqf dm sink page in                     (* sink.processEntities *)
   if nonempty page && is_sinkpanic flt idx then (sink1, stored, Some ODied) else
   if is_diebefore flt idx then (sink1, stored, Some ODied) else   (* pipeline.beforeToken *)
   (* StoreObject(JobDataIndex, job.id, syncJobState) *)
@@ -167,41 +184,41 @@ Definition proc_inc {T} (eqf : version -> version -> bool) (sink : feed) (stored
   else (sink1, newtok, None).
 
 (** the callback of FullSyncPipeline.sync: the token is only captured in memory *)
-Definition proc_full (eqf : version -> version -> bool) (sink : feed)
+Definition proc_full (eqf : version -> version -> bool) (dm : dup_mode) (sink : feed)
     (page : list version) (idx : nat) (flt : fault) : feed * option outcome :=
   if nonempty page && is_sinkfail flt idx then (sink, Some OFailed) else
-  let sink1 := ds_write eqf sink page in
+  let sink1 := ds_write eqf dm sink page in
   if nonempty page && is_sinkpanic flt idx then (sink1, Some ODied) else
   if negb (nonempty page) then (sink1, Some OOk) else
   if is_kill flt idx then (sink1, Some OFailed)
   else (sink1, None).
 
 (** ** DatasetSource: one ReadEntities = one page, the pipeline loops *)
-Fixpoint inc_single (fuel : nat) (eqf : version -> version -> bool) (lo : bool) (b : nat)
+Fixpoint inc_single (fuel : nat) (eqf : version -> version -> bool) (dm : dup_mode) (lo : bool) (b : nat)
     (src sink : feed) (stored : token) (idx : nat) (flt : fault) : feed * token * outcome :=
   match fuel with
   | O => (sink, stored, OFailed)
   | S fuel' =>
     let '(page, next) := process_changes lo src (asincr stored) b in
-    match proc_inc eqf sink stored page (Some next) idx flt with
+    match proc_inc eqf dm sink stored page (Some next) idx flt with
     | (s, t, Some o) => (s, t, o)
-    | (s, t, None) => inc_single fuel' eqf lo b src s t (S idx) flt
+    | (s, t, None) => inc_single fuel' eqf dm lo b src s t (S idx) flt
     end
   end.
 
 (** fullsync: [mem] = syncJobState.ContinuationToken in memory, [seen] = the ids the sink
     dataset recorded in fullSyncSeen (every element handed to StoreEntities) *)
-Fixpoint full_single (fuel : nat) (eqf : version -> version -> bool) (lo : bool) (b : nat)
+Fixpoint full_single (fuel : nat) (eqf : version -> version -> bool) (dm : dup_mode) (lo : bool) (b : nat)
     (src sink : feed) (mem : token) (seen : list Z) (idx : nat) (flt : fault)
     : feed * token * list Z * outcome :=
   match fuel with
   | O => (sink, mem, seen, OFailed)
   | S fuel' =>
     let '(page, next) := process_changes lo src (asincr mem) b in
-    match proc_full eqf sink page idx flt with
+    match proc_full eqf dm sink page idx flt with
     | (s, Some OOk) => (s, Some next, seen ++ ids page, OOk)
     | (s, Some o) => (s, mem, seen, o)
-    | (s, None) => full_single fuel' eqf lo b src s (Some next) (seen ++ ids page) (S idx) flt
+    | (s, None) => full_single fuel' eqf dm lo b src s (Some next) (seen ++ ids page) (S idx) flt
     end
   end.
 
@@ -222,7 +239,7 @@ Definition union_update (mem : list token) (a : nat) (newtok : token) : list tok
     if S a <? length mem then (mem', true, S a) else (mem', false, a)
   else (mem', true, a).
 
-Fixpoint inc_union (fuel : nat) (eqf : version -> version -> bool) (los : list bool) (b : nat)
+Fixpoint inc_union (fuel : nat) (eqf : version -> version -> bool) (dm : dup_mode) (los : list bool) (b : nat)
     (srcs : list feed) (sink : feed) (stored mem : list token) (a idx : nat) (flt : fault)
     : feed * list token * outcome :=
   match fuel with
@@ -231,14 +248,14 @@ Fixpoint inc_union (fuel : nat) (eqf : version -> version -> bool) (los : list b
     let '(page, next) := process_changes (nth a los false) (nth a srcs []) (asincr (nth a mem None)) b in
     let '(mem', keep, a') := union_update mem a (Some next) in
     if nonempty page || negb keep then
-      match proc_inc eqf sink stored page mem' idx flt with
+      match proc_inc eqf dm sink stored page mem' idx flt with
       | (s, t, Some o) => (s, t, o)
-      | (s, t, None) => inc_union fuel' eqf los b srcs s t mem' a' (S idx) flt
+      | (s, t, None) => inc_union fuel' eqf dm los b srcs s t mem' a' (S idx) flt
       end
-    else inc_union fuel' eqf los b srcs sink stored mem' a' idx flt
+    else inc_union fuel' eqf dm los b srcs sink stored mem' a' idx flt
   end.
 
-Fixpoint full_union (fuel : nat) (eqf : version -> version -> bool) (los : list bool) (b : nat)
+Fixpoint full_union (fuel : nat) (eqf : version -> version -> bool) (dm : dup_mode) (los : list bool) (b : nat)
     (srcs : list feed) (sink : feed) (mem : list token) (seen : list Z) (a idx : nat) (flt : fault)
     : feed * list token * list Z * outcome :=
   match fuel with
@@ -247,12 +264,12 @@ Fixpoint full_union (fuel : nat) (eqf : version -> version -> bool) (los : list 
     let '(page, next) := process_changes (nth a los false) (nth a srcs []) (asincr (nth a mem None)) b in
     let '(mem', keep, a') := union_update mem a (Some next) in
     if nonempty page || negb keep then
-      match proc_full eqf sink page idx flt with
+      match proc_full eqf dm sink page idx flt with
       | (s, Some OOk) => (s, mem', seen ++ ids page, OOk)
       | (s, Some o) => (s, mem, seen, o)
-      | (s, None) => full_union fuel' eqf los b srcs s mem' (seen ++ ids page) a' (S idx) flt
+      | (s, None) => full_union fuel' eqf dm los b srcs s mem' (seen ++ ids page) a' (S idx) flt
       end
-    else full_union fuel' eqf los b srcs sink mem' seen a' idx flt
+    else full_union fuel' eqf dm los b srcs sink mem' seen a' idx flt
   end.
 
 (** ** CompleteFullSync: every entity of the sink whose latest version is live and whose
@@ -268,8 +285,8 @@ Definition unseen_live (sink : feed) (seen : list Z) : list version :=
                      | Some v => if negb (v_del v) && negb (zmem i seen) then [set_del v] else []
                      | None => []
                      end) (dedup (ids sink)).
-Definition complete (eqf : version -> version -> bool) (sink : feed) (seen : list Z) : feed :=
-  ds_write eqf sink (unseen_live sink seen).
+Definition complete (eqf : version -> version -> bool) (dm : dup_mode) (sink : feed) (seen : list Z) : feed :=
+  ds_write eqf dm sink (unseen_live sink seen).
 
 (** ** One job run on the persisted state *)
 Record state := mkSt { st_srcs : list feed; st_sink : feed; st_tok : list token }.
@@ -281,32 +298,33 @@ Definition none_tokens (srcs : list feed) : list token := map (fun _ => None) sr
 
 Definition run_job (v : variant) (st : state) (r : rcfg) : state * outcome :=
   let eqf := weq (vm_eq v) in
+  let dm := vm_dup v in
   let srcs := st_srcs st in
   let fuel := fuel_of srcs in
   if r_full r then
     let stored0 := match vm_fs v with FsKeep => st_tok st | FsReset => none_tokens srcs end in
     if r_union r then
       let '(s, mem, seen, o) :=
-        full_union fuel eqf (r_los r) (r_b r) srcs (st_sink st) (none_tokens srcs) [] 0 0 (r_flt r) in
+        full_union fuel eqf dm (r_los r) (r_b r) srcs (st_sink st) (none_tokens srcs) [] 0 0 (r_flt r) in
       match o with
-      | OOk => (mkSt srcs (complete eqf s seen) mem, OOk)
+      | OOk => (mkSt srcs (complete eqf dm s seen) mem, OOk)
       | _ => (mkSt srcs s stored0, o)
       end
     else
       let '(s, mem, seen, o) :=
-        full_single fuel eqf (nth 0 (r_los r) false) (r_b r) (nth 0 srcs []) (st_sink st) None [] 0 (r_flt r) in
+        full_single fuel eqf dm (nth 0 (r_los r) false) (r_b r) (nth 0 srcs []) (st_sink st) None [] 0 (r_flt r) in
       match o with
-      | OOk => (mkSt srcs (complete eqf s seen) (upd 0 mem (st_tok st)), OOk)
+      | OOk => (mkSt srcs (complete eqf dm s seen) (upd 0 mem (st_tok st)), OOk)
       | _ => (mkSt srcs s stored0, o)
       end
   else
     if r_union r then
       let '(s, t, o) :=
-        inc_union fuel eqf (r_los r) (r_b r) srcs (st_sink st) (st_tok st) (st_tok st) 0 0 (r_flt r) in
+        inc_union fuel eqf dm (r_los r) (r_b r) srcs (st_sink st) (st_tok st) (st_tok st) 0 0 (r_flt r) in
       (mkSt srcs s t, o)
     else
       let '(s, t, o) :=
-        inc_single fuel eqf (nth 0 (r_los r) false) (r_b r) (nth 0 srcs []) (st_sink st)
+        inc_single fuel eqf dm (nth 0 (r_los r) false) (r_b r) (nth 0 srcs []) (st_sink st)
                    (nth 0 (st_tok st) None) 0 (r_flt r) in
       (mkSt srcs s (upd 0 t (st_tok st)), o).
 
@@ -319,10 +337,10 @@ Inductive op :=
 Definition step (v : variant) (st : state) (o : op) : state * option outcome :=
   match o with
   | OWrite k es =>
-    (mkSt (upd k (ds_write (weq (vm_eq v)) (nth k (st_srcs st) []) es) (st_srcs st))
+    (mkSt (upd k (ds_write (weq (vm_eq v)) (vm_dup v) (nth k (st_srcs st) []) es) (st_srcs st))
           (st_sink st) (st_tok st), None)
   | OSinkWrite es =>
-    (mkSt (st_srcs st) (ds_write (weq (vm_eq v)) (st_sink st) es) (st_tok st), None)
+    (mkSt (st_srcs st) (ds_write (weq (vm_eq v)) (vm_dup v) (st_sink st) es) (st_tok st), None)
   | ORun r => let '(st', o) := run_job v st r in (st', Some o)
   end.
 
